@@ -185,6 +185,10 @@ func (v *V2) ReadIndex(path string) ([]byte, error) {
 	if err = idFile.Close(); err != nil {
 		return nil, errors.Wrapf(err, "failed to close segment index file %s", path)
 	}
+	if uint32(len(indexBuf)) < v.GetIndexHeaderSize() {
+		// e.g. a crash while the index file was being written
+		return nil, errors.Wrapf(ErrDataCorrupted, "truncated segment index file %s", path)
+	}
 	expectedCrc := ReadInt(indexBuf, 0)
 	actualCrc := crc.Checksum(0).Update(indexBuf[v.GetIndexHeaderSize():]).Value()
 	if expectedCrc != actualCrc {
